@@ -111,6 +111,9 @@ pub enum HOp {
     Get(u8),
     Touch(u8),
     Ensure(u8),
+    /// (sharded handles) peers sharing the handle have left its in-memory load estimates in this pattern: 0 all
+    /// zero, 1 ascending with the shard index, 2 descending, 3 only shard 0 loaded; operand = pattern
+    Estimates(u8),
 }
 
 #[derive(Clone, Copy, Debug, PartialEq, Eq, Hash)]
@@ -138,6 +141,8 @@ impl Sym {
             HOp::Put(nums[0])
         } else if s.starts_with("Get") {
             HOp::Get(nums[0])
+        } else if s.starts_with("Estimates") {
+            HOp::Estimates(nums[0])
         } else if s.starts_with("Touch") {
             HOp::Touch(nums[0])
         } else {
@@ -198,6 +203,11 @@ pub fn alphabet(cfg: &Config) -> Vec<Sym> {
             }
             v.push(Sym { handle: h, op: HOp::Get(k), fire: false, shard_draw: 0 });
             v.push(Sym { handle: h, op: HOp::Touch(k), fire: false, shard_draw: 0 });
+        }
+        if matches!(cfg.front, FrontKind::Sharded(_)) {
+            for p in 0..4u8 {
+                v.push(Sym { handle: h, op: HOp::Estimates(p), fire: false, shard_draw: 0 });
+            }
         }
     }
     v
@@ -303,6 +313,7 @@ fn exec(live: &mut Live, cfg: &Config, sym: &Sym) -> (Got, Vec<Ev>, Option<PathB
         HOp::SetLinked(k) | HOp::PutLinked(k) => (k, Some(put_val())),
         HOp::Ensure(k) => (k, Some(ensure_val())),
         HOp::Get(k) | HOp::Touch(k) => (k, None),
+        HOp::Estimates(_) => (0, None),
     };
     let key = keys[kidx as usize].clone();
     let mut src = None;
@@ -346,6 +357,25 @@ fn exec(live: &mut Live, cfg: &Config, sym: &Sym) -> (Got, Vec<Ev>, Option<PathB
             (Handle::Sharded(c), HOp::Put(_)) | (Handle::Sharded(c), HOp::PutLinked(_)) => io_got(c.put(k, srcp.as_ref().unwrap()), |_| Got::Unit),
             (Handle::Sharded(c), HOp::Get(_)) => io_got(c.get(k), |o| o.map(|f| Got::Hit(read_all(f))).unwrap_or(Got::Miss)),
             (Handle::Sharded(c), HOp::Touch(_)) => io_got(c.touch(k), Got::Bool),
+            (Handle::Sharded(c), HOp::Estimates(p)) => {
+                let n = c.verif_load_estimates().len();
+                for i in 0..n {
+                    let v = match p {
+                        0 => 0,
+                        1 => i as u8,
+                        2 => (n - i) as u8,
+                        _ => {
+                            if i == 0 {
+                                5
+                            } else {
+                                0
+                            }
+                        }
+                    };
+                    c.verif_set_load_estimate(i, v);
+                }
+                Got::Unit
+            }
             (Handle::Stack(c), _) => {
                 let dirs = ops::Dirs { write: PathBuf::new(), reads: vec![], app_tmp: app.clone() };
                 let o = match op {
@@ -353,7 +383,7 @@ fn exec(live: &mut Live, cfg: &Config, sym: &Sym) -> (Got, Vec<Ev>, Option<PathB
                     HOp::Put(_) | HOp::SetLinked(_) | HOp::PutLinked(_) => ops::Op::Put(key.clone(), put_val()),
                     HOp::Ensure(_) => ops::Op::Ensure(key.clone(), Pop::Value(if checked && key.name == "ka" { ro_val() } else { ensure_val() })),
                     HOp::Get(_) => ops::Op::Get(key.clone()),
-                    HOp::Touch(_) => ops::Op::Touch(key.clone()),
+                    HOp::Touch(_) | HOp::Estimates(_) => ops::Op::Touch(key.clone()),
                 };
                 match ops::exec(c, &dirs, &o, &Default::default()).res {
                     ops::Res::Unit => Got::Unit,
@@ -537,6 +567,7 @@ fn step(live: &mut Live, cfg: &Config, sym: &Sym, rep: &mut Report) -> Vec<(Stri
     let (kidx, _) = match sym.op {
         HOp::Set(k, v) => (k, Some(v)),
         HOp::Put(k) | HOp::Get(k) | HOp::Touch(k) | HOp::Ensure(k) | HOp::SetLinked(k) | HOp::PutLinked(k) => (k, None),
+        HOp::Estimates(_) => (0, None),
     };
     let key = &keys[kidx as usize];
     let ro_has = cfg.front.is_stack() && key.name == "ka";
@@ -572,6 +603,7 @@ fn step(live: &mut Live, cfg: &Config, sym: &Sym, rep: &mut Report) -> Vec<(Stri
             None => Got::Miss,
         },
         HOp::Touch(_) => Got::Bool(in_model.is_some() || ro_has),
+        HOp::Estimates(_) => Got::Unit,
         HOp::Ensure(_) if !copies.is_empty() && disagree(Some(populated)) => mismatch.clone(),
         HOp::Ensure(_) => match in_model {
             Some(v) => Got::Hit(v.bytes()),
@@ -899,7 +931,7 @@ pub fn run(tier: Tier, shard: Shard, rep: &mut Report) {
         estimates) on the same directories: front-ends plain, sharded (2, 3, 8 shards), stacked (sharded writer + plain read-only level; \
         with and without the library's byte-equality checker, under which disagreeing copies must make the lookup fail and change nothing); \
         keys with the same shard pair, the swapped pair, and one whose secondary image equals its primary (fix-up); alphabet per handle \
-        {set k A|B, put k C, get k, touch k, (stacked) ensure k D} x environment answers {trigger fires / does not, random other shard \
+        {set k A|B, put k C, get k, touch k, (stacked) ensure k D, (sharded) the handle's load estimates left in one of four patterns by peers} x environment answers {trigger fires / does not, random other shard \
         in {0, 1, n-1}}; capacities 'tight' (2 per directory: evictions all the time), 'roomy' (2^40) and 'odd' (2 x shards + 1 on 3 and 4 \
         shards: a total the shard count does not divide; each directory holds ceil(total/shards) files; these searches start from a \
         shard that is exactly full). States are deduplicated on a \
